@@ -49,7 +49,7 @@ def budget(tier):
 
 
 def gen_case(rng, tier):
-    case = c03.gen_case(rng, tier)
+    case = c03.gen_case(rng, tier, custom_final=False)
     case["edit_seed"] = rng.randint(0, 10**9)
     case["all_options"] = tier == "thorough"
     return case
